@@ -1,0 +1,58 @@
+// SPDX-FileCopyrightText: 2020 - 2025 SAP SE
+//
+// SPDX-License-Identifier: Apache-2.0
+
+//go:build verif
+
+// Contracts for the verification machinery under /verif (comment-only file;
+// compiled only with -tags verif and contains no code).
+
+package capability
+
+//@ # C19. A version comparer is an arbitrary but deterministic function: its result is
+//@ # the uninterpreted uf_cmp(a, b), it fails exactly when ufb_cmperr(a, b).
+//@ func functype:VersionComparer params (a, b) returns (r, err)
+//@   modifies
+//@   ensures [deterministic] r == uf_cmp(a, b) && (err != nil) == ufb_cmperr(a, b)
+
+//@ # membership as stated by the property: lower bound inclusive, upper bound exclusive,
+//@ # a missing bound is unbounded, a range without any bound contains nothing
+//@ pred inrange(lo string, hi string, v string) { !(lo == "" && hi == "") && (lo == "" || uf_cmp(lo, v) <= 0) && (hi == "" || uf_cmp(v, hi) < 0) }
+//@ pred rangeerr(lo string, hi string, v string) { (lo != "" && ufb_cmperr(lo, v)) || (hi != "" && ufb_cmperr(v, hi)) }
+//@ func (VersionRange).contains returns (ok, err)
+//@   requires [comparer] fn != nil
+//@   modifies
+//@   ensures [membership] err == nil ==> ok == inrange(vrange.Introduced, vrange.Removed, version)
+//@   ensures [error-iff-comparer-fails] (err != nil) == rangeerr(vrange.Introduced, vrange.Removed, version)
+//@   ensures [no-silent-answer] err != nil ==> !ok
+
+//@ # DefaultVersion: the capability map is allocated by the constructor
+//@ typeinv DefaultVersion { [caps] this.capabilities != nil }
+//@ func NewDefaultVersion returns (v)
+//@   modifies
+//@   ensures [fresh] nonnil(v) && fresh(v)
+
+//@ # Version: abstract view $has (capability object -> enabled), $vs (the version string)
+//@ ghost field Version.$vs int
+//@ interface Version.VersionString returns (s)
+//@   modifies
+//@ interface Version.SetCapability params (c, b)
+//@   modifies this.*, all map map[*capability.Capability]bool
+//@ interface Version.Has params (c) returns (r)
+//@   modifies
+
+//@ func (Target).SetCapabilities returns (err)
+//@   requires [version] nonnil(v)
+//@   requires [caps-nonnil] forall i int :: 0 <= i && i < len(target.Capabilities) ==> target.Capabilities[i] != nil
+
+//@ # NewCapability pairs the version strings: range i is (s[2i], s[2i+1]); a trailing single
+//@ # lower bound makes an open-ended range
+//@ func NewCapability returns (c)
+//@   ensures [fresh] c != nil && fresh(c)
+//@   ensures [count] len(versionRanges) / 2 <= len(c.VersionRanges) && len(c.VersionRanges) <= (len(versionRanges) + 1) / 2
+//@   loop 0:
+//@     invariant [count] len(c.VersionRanges) == (rangeindex + 1) / 2 && -1 <= rangeindex && rangeindex < len(versionRanges) && fresh(c) && c != nil
+
+//@ func (Target).Version returns (ver, err)
+//@   requires [caps-nonnil] forall i int :: 0 <= i && i < len(target.Capabilities) ==> target.Capabilities[i] != nil
+//@   ensures [version-or-error] err == nil ==> nonnil(ver)
